@@ -539,6 +539,16 @@ class CMMultiMicro(CMBinary):
                                                vocab=dict(VOCAB))
 
 
+class CMMultiMicroNoVocab(CMMultiMicro):
+  """No vocabulary configured: every batch derives its own, so counts of true negatives depend on the batch."""
+  name = 'ConfusionMatrixAggFn/multiclass-micro-no-vocab'
+  c01_only = True      # C11's verdicts use the one-batch reference, which is exactly what fails here (a C01 matter)
+
+  def fn(self):
+    from ml_metrics._src.aggregates import classification
+    return classification.ConfusionMatrixAggFn(metrics=CM_METRICS, input_type=self.input_type, average=self.average)
+
+
 class CMMultiMacro(CMMultiMicro):
   name = 'ConfusionMatrixAggFn/multiclass-macro'
   average = 'macro'
@@ -740,6 +750,6 @@ def _direct_adapters():
   return [Mean1D(), Mean2D(), Mean2DMixed(), MeanVar1D(), MeanVar2D(), MeanVar2DMixed(), Var1D(), Hist(), HistEdges(), CounterA(), MinMax(), ValueAcc(),
           ValueAccMetric(), Unbounded(), UnboundedSingle(), Reservoir(), Reservoir3(), R2(), R2Rel(), RReg(), RRegNC(),
           RRegMulti(), RRegMultiMixed(), SPD(), MeanStateA(), MeanStateArr(), TupleMean(), NGrams(), NGrams2(), NGramsFirst(), Patterns(),
-          PatternsNoDup(), CMBinary(), CMBinaryStr(), CMMultiMicro(), CMMultiMacro(), CMMultiOut(), CMIndicator(), CMTopK(),
+          PatternsNoDup(), CMBinary(), CMBinaryStr(), CMMultiMicro(), CMMultiMicroNoVocab(), CMMultiMacro(), CMMultiOut(), CMIndicator(), CMTopK(),
           ClassificationAgg(), Samplewise(), SamplewiseIndicator(), CalibHist(), TopKRet(), TopKRet1(), TopKRet13(),
           TopKRet135(), TopKRetMulticlass(), Thresholded()]
